@@ -1,8 +1,15 @@
 package props
 
 import (
+	"crypto/elliptic"
 	"fmt"
+	"math/big"
 	"time"
+
+	"github.com/decred/dcrd/dcrec/secp256k1/v4"
+
+	"github.com/ucan-wg/go-ucan/did"
+	"github.com/ucan-wg/go-ucan/token"
 
 	"github.com/ipfs/go-cid"
 
@@ -189,4 +196,116 @@ func diffWindow(a, b string) string {
 		hi = len(a)
 	}
 	return a[lo:hi]
+}
+
+// ---- the same token sealed again after many other principals went through the library ----
+
+type c20ManyCase struct {
+	Alg   string `json:"alg"`
+	Count int    `json:"count"`
+}
+
+func (c *c20ManyCase) Weight() int { return c.Count }
+
+func c20ManyIssuersSub() *engine.Sub {
+	counts := func(tier string) []int {
+		out := []int{0}
+		top := 11
+		if tier == "thorough" {
+			top = 14
+		}
+		for k := 4; k <= top; k++ {
+			out = append(out, 1<<k-1, 1<<k, 1<<k+1)
+		}
+		return out
+	}
+	return &engine.Sub{
+		Name:   "sealing-again-after-many-other-principals",
+		Serial: true,
+		Rule:   "a delegation and an invocation of a secp256k1 / P-256 / RSA-2048 issuer are sealed and decoded; then N other distinct principals of elliptic-curve key types (the points 2*G .. (N+1)*G of secp256k1 and P-256 as did:key identifiers) are resolved to their public keys (N = 0 and 2^k-1, 2^k, 2^k+1 up to 2^11, thorough 2^14: every fill level at which a table of a power-of-two size wraps); then the same token objects are sealed again and their first sealed bytes are decoded again: both succeed, the token prints as before and the issuer's DID still yields the issuer's key; non-trivial = N > 0",
+		Bound: func(t string) string {
+			return fmt.Sprintf("3 issuer algorithms x %d counts x 2 token kinds", len(counts(t)))
+		},
+		Setup: func(string) error { chainInit(); return nil },
+		Gen: func(tier string, emit func(any) bool) {
+			for _, n := range counts(tier) {
+				for _, alg := range []string{"secp256k1", "p256", "rsa2048"} {
+					if !emit(&c20ManyCase{alg, n}) {
+						return
+					}
+				}
+			}
+		},
+		NewCase: func() any { return &c20ManyCase{} },
+		Run: func(ctx *engine.Ctx, c any) {
+			cs := c.(*c20ManyCase)
+			k := fixtures.Get(cs.Alg, 0)
+			aud := fixtures.Get("ed25519", 1).DID
+			ctx.States(1)
+			if cs.Count > 0 {
+				ctx.Nontrivial(1)
+			}
+			d, err := delegation.New(k.DID, aud, "/a", nil, delegation.WithSubject(k.DID), delegation.WithNonce(fixedNonce))
+			if err != nil {
+				panic(err)
+			}
+			inv, err := invocation.New(k.DID, k.DID, "/a", []cid.Cid{cidPool[0]}, invocation.WithNonce(fixedNonce), invocation.WithoutInvokedAt())
+			if err != nil {
+				panic(err)
+			}
+			type sealed struct {
+				tok   sealer
+				bytes []byte
+				view  string
+			}
+			var first []sealed
+			for _, t := range []sealer{d, inv} {
+				b, _, err := t.ToSealed(k.Priv)
+				if err != nil {
+					ctx.Failf(cs, "seal-fails/first", "the first seal of a %s-issued token fails: %v", cs.Alg, err)
+					return
+				}
+				first = append(first, sealed{t, b, c20ops.DumpValue(t)})
+			}
+			// the other principals
+			for i := 0; i < cs.Count; i++ {
+				var id did.DID
+				var perr error
+				scalar := big.NewInt(int64(i/2 + 2)).Bytes()
+				if i%2 == 0 {
+					x, y := secp256k1.S256().ScalarBaseMult(scalar)
+					id, perr = did.Parse(didKeyString(uvarint(0xe7), elliptic.MarshalCompressed(secp256k1.S256(), x, y)))
+				} else {
+					x, y := elliptic.P256().ScalarBaseMult(scalar)
+					id, perr = did.Parse(didKeyString(uvarint(0x1200), elliptic.MarshalCompressed(elliptic.P256(), x, y)))
+				}
+				if perr != nil {
+					panic(perr)
+				}
+				safePubKey(id)
+			}
+			ctx.Trans(int64(cs.Count))
+			for i, f := range first {
+				kind := [2]string{"delegation", "invocation"}[i]
+				ctx.Eval(2)
+				if _, _, err := f.tok.ToSealed(k.Priv); err != nil {
+					ctx.Failf(cs, "result-depends-on-earlier-calls/seal-again/"+cs.Alg, "sealing the same %s of a %s issuer again fails after %d other principals were resolved: %v", kind, cs.Alg, cs.Count, err)
+					return
+				}
+				if _, _, err := token.FromSealed(f.bytes); err != nil {
+					ctx.Failf(cs, "result-depends-on-earlier-calls/decode-again/"+cs.Alg, "the bytes of the first seal of the %s (%s issuer) no longer decode after %d other principals were resolved: %v", kind, cs.Alg, cs.Count, err)
+					return
+				}
+				if v := c20ops.DumpValue(f.tok); v != f.view {
+					ctx.Failf(cs, "token-mutated-by/sealing-among-many-principals/"+cs.Alg, "the %s changed", kind)
+					return
+				}
+			}
+			if pk, err, pan := safePubKey(k.DID); err != nil || pan != nil || !pk.Equals(k.Pub) {
+				ctx.Failf(cs, "result-depends-on-earlier-calls/issuer-key/"+cs.Alg, "the issuer's DID no longer yields the issuer's key after %d other principals were resolved (err %v)", cs.Count, err)
+				return
+			}
+			ctx.Outcome("unchanged")
+		},
+	}
 }
